@@ -399,12 +399,28 @@ which changes nothing here) -/
 def tagFlow (p : Plan) (width : Nat) (batches : List (List (List Scalar))) : List TRow :=
   batches.flatMap (tagBatch p width)
 
+def mergeVec (a b : List St) : List St :=
+  if a.length = b.length then List.zipWith St.merge a b else a
+
+/-- merge `v` into the current value of a map entry, or insert it -/
+def mergeOpt (o : Option (List St)) (v : List St) : List St :=
+  match o with
+  | none => v
+  | some cur => mergeVec cur v
+
 /-- `into_partial`: `HashMap::insert` per `(bucket, groups)` — a later entry *replaces* an earlier
-one. Iteration order of the sink's map is unspecified; `zeroLast` says whether the columnar
-(`zero`) entries come last. -/
-def intoPartial (zeroLast : Bool) (t : AList SinkKey) : AList Key :=
-  let ordered := t.filter (fun e => e.1.zero != zeroLast) ++ t.filter (fun e => e.1.zero == zeroLast)
-  ordered.foldl (fun acc e => acc.upsert e.1.key fun _ => e.2.map snapshot) []
+one. Iteration order of the sink's map is unspecified: `some zeroLast` says whether the columnar
+(`zero`) entries come last. `none` is the third possible outcome: the two `==` keys happened to
+meet in the hash table (equal 7-bit tags in the one probe group, ≈ 1 in 128), so the sink never
+held two groups; for the metrics that allow the columnar path (COUNT / TOTAL / AVG) that is the
+same as adding the two groups up. -/
+def intoPartial (mode : Option Bool) (t : AList SinkKey) : AList Key :=
+  match mode with
+  | some zeroLast =>
+    let ordered := t.filter (fun e => e.1.zero != zeroLast) ++ t.filter (fun e => e.1.zero == zeroLast)
+    ordered.foldl (fun acc e => acc.upsert e.1.key fun _ => e.2.map snapshot) []
+  | none =>
+    t.foldl (fun acc e => acc.upsert e.1.key fun o => mergeOpt o (e.2.map snapshot)) []
 
 /-- wire form of the key (`build_row` → `parse_aggregate_row`): `None` bucket ↦ `0`; a bucket
 whose i64 view is negative ↦ `None`; no PER clause ↦ `None`. -/
@@ -414,9 +430,6 @@ def wireKey (p : Plan) (k : Key) : Key :=
          if b < 9223372036854775808 then some b else none)
       else none
     groups := k.groups }
-
-def mergeVec (a b : List St) : List St :=
-  if a.length = b.length then List.zipWith St.merge a b else a
 
 /-- `merge_batch_into_groups` for one wire row -/
 def mergeInto (p : Plan) (t : AList Key) (e : Key × List St) : AList Key :=
@@ -476,9 +489,9 @@ def limitRows {α : Type} (offset limit : Option Nat) (rows : List α) : List α
   | none => r
 
 /-- The whole pipeline for a list of flows (shard × {memtable, segments}), each a list of tagged
-rows. `zl i` is the iteration-order choice of the `i`-th flow's sink map (each sink has its own
-randomly seeded `HashMap`). -/
-def runFlows (p : Plan) (zl : Nat → Bool) (flows : List (List TRow)) : AList Key :=
+rows. `zl i` is the outcome of the `i`-th flow's sink map (each sink has its own randomly seeded
+`HashMap`), see `intoPartial`. -/
+def runFlows (p : Plan) (zl : Nat → Option Bool) (flows : List (List TRow)) : AList Key :=
   coordinate p (flows.zipIdx.map fun x => intoPartial (zl x.2) (sinkAgg p x.1))
 
 /-! ### the reference fold (specification) on the rows of one group -/
